@@ -12,8 +12,10 @@ ENGINE = {'name': 'caddyfile',
  'serves': ['C15'],
  'rule': 'corpus: the 27 golden files of integration/caddyfile_adapt; generated: abstract configurations drawn from the grammar documented on '
          'every UnmarshalCaddyfile (18 matcher modules, 6 handler modules + tee/subroute/not, option values from each module\'s accepted domain, '
-         '1-2 global layer4 blocks with 0-3 (rarely 11) servers, every 4th case in listener-wrapper form, nesting depth 1-3, 30% of blocks with '
-         'shuffled directive order); each is printed as Caddyfile text and as the JSON it states, adapted twice by the real adapter, compared as '
+         '1-2 global layer4 blocks with 0-3 (rarely 11) servers, every 4th case in listener-wrapper form, nesting depth 1-3, 30% of route blocks with '
+         'shuffled directive order, every 2nd configuration with the option lines inside every module block (also nested upstream / '
+         'connection_policy blocks) in random order and well-populated proxy blocks mixing health_checks.active/passive, load_balancing and '
+         'upstream tls_* options, every 5th with appending options repeated over two lines); each is printed as Caddyfile text and as the JSON it states, adapted twice by the real adapter, compared as '
          'parsed JSON, loaded with caddy.Validate, decoded into layer4.App and into every module struct and re-encoded; plus a fixed stream of '
          'syntactically valid / semantically invalid values that the adapter must accept; a case is non-trivial when the configuration has at '
          'least one named matcher set and one nested handler (tee/subroute); distinct = distinct Coq terms',
